@@ -236,7 +236,7 @@ class Harness:
             args = (mpath,)
         else:
             target = T.TARGETS[case['ending']]
-            args = (mpath, 99 if case.get('us_none') else 98 if case.get('us_zero') else 97 if case.get('us_slow') else case.get('loop', 2))
+            args = (mpath, 96 if case.get('us_inplace') else 99 if case.get('us_none') else 98 if case.get('us_zero') else 97 if case.get('us_slow') else case.get('loop', 2))
         st = None
         ffault = fault_is_frontend = case.get('fault') == 'fpause'
         if ffault:
@@ -727,6 +727,10 @@ def _us_end(w, marks, case):
     if type(v).__name__ == 'SlowState':
         v = v.k
     init = case.get('init_state', 0)
+    if case.get('us_inplace'):           # a list updated in place k times stands for the integer k (init_state [] for 0)
+        if not isinstance(v, list) or v != list(range(1, len(v) + 1)):
+            return 'other'
+        v, init = len(v), len(init)
     us = [m for m in marks if m.startswith('us_')]
     if not us:
         return 'last' if v == init else 'other'
